@@ -247,6 +247,50 @@ var racePrograms = []raceProg{
 		w2.WaitAndStop()
 		return 500
 	}},
+	{"shared-handle-readers", func(r *Rng) int {
+		// several goroutines read the outcome of the SAME handle at the same time, before and after it exists
+		gate := make(chan struct{})
+		rw := varmq.NewResultWorker(func(j varmq.Job[int]) (int, error) {
+			<-gate
+			if j.Data()%3 == 0 {
+				return 0, errBoom
+			}
+			return j.Data(), nil
+		}, 4)
+		ew := varmq.NewErrWorker(func(j varmq.Job[int]) error {
+			<-gate
+			if j.Data()%2 == 0 {
+				return errBoom
+			}
+			return nil
+		}, 4)
+		rq, eq := rw.BindQueue(), ew.BindPriorityQueue()
+		var rhs []varmq.EnqueuedResultJob[int]
+		var ehs []varmq.EnqueuedErrJob
+		for i := 0; i < 12; i++ {
+			if h, ok := rq.Add(i); ok {
+				rhs = append(rhs, h)
+			}
+			if h, ok := eq.Add(i, i%3); ok {
+				ehs = append(ehs, h)
+			}
+		}
+		reader := func() {
+			for i := range rhs {
+				rhs[i].Result()
+				ehs[i].Err()
+				rhs[i].Status()
+			}
+			for i := range rhs {
+				rhs[i].Result()
+				ehs[i].Err()
+			}
+		}
+		spawn(reader, reader, reader, func() { rhs[0].Wait(); ehs[0].Wait() }, func() { runtime.Gosched(); close(gate) })
+		rw.WaitAndStop()
+		ew.WaitAndStop()
+		return 200
+	}},
 	{"metrics-reset", func(r *Rng) int {
 		// every method of Metrics, Reset included, while jobs are submitted, complete and fail
 		w := varmq.NewErrWorker(func(j varmq.Job[int]) error {
